@@ -26,6 +26,8 @@ def _norm_body(fnode, opt):
                 n.id = "OPT_kwargs"
             return n
     t = N().visit(t)
+    from ..common import canon
+    t = canon(t)
     body = [s for s in t.body if not (isinstance(s, ast.Expr) and isinstance(s.value, ast.Constant)
                                       and isinstance(s.value.value, str))]
     return [ast.dump(s) for s in body]
